@@ -178,6 +178,12 @@ impl Check for C06 {
         // written into a scratch buffer) between configuration calls: the announced size must be
         // that of the finished configuration, whatever was asked before
         let probes = if ar.chance(1, 4) { ar.next_u64() | 1 } else { 0 };
+        if probes != 0 {
+            ctx.stats.fault("observation-probes", 1);
+        }
+        if !tape.is_empty() {
+            ctx.stats.fault("call-history", 1);
+        }
         let found = realise_probed(&plan, hash_key, probes, |c| {
             let size = guarded_size(c);
             let n_guess = match &size {
